@@ -96,7 +96,7 @@ CLAIMED["C11"] = ("exploration",
   "Trusted: the Go runtime's collector as sensor (TLA+ cannot observe it); TLC; harness/project.go. Level claimed: exploration.",
   "DESIGN.md section 6 C11")
 CLAIMED["C12"] = ("model_checking",
-  "PlusCal model of the three locks and the maps they protect (MutualExclusion, LookupSeesLatest, TzCanonical) and RWLockBuild (writer-preferring RWMutex x recursive builder x Register: deadlock-free, terminates; the hold-across-build defect cfg must deadlock) model-checked; gate enforcement through hooks inside the critical sections, -race stress with sequenced section events replayed against the lock model, and per-goroutine results judged by the sequential reference (Trace_Conc)",
+  "TLA+ SharedCodec (a built codec is immutable: the error held from a failed decode stays the caller's own; the error-slot-in-codec defect cfg must violate HeldIsOwn) model-checked; PlusCal model of the three locks and the maps they protect (MutualExclusion, LookupSeesLatest, TzCanonical) and RWLockBuild (writer-preferring RWMutex x recursive builder x Register: deadlock-free, terminates; the hold-across-build defect cfg must deadlock) model-checked; gate enforcement through hooks inside the critical sections, -race stress with sequenced section events replayed against the lock model, and per-goroutine results judged by the sequential reference (Trace_Conc)",
   "TLC checks the lock design for 3 goroutines x 1 (2 thorough) operations. On the real code: (1) for each ordered pair of sections of one lock a goroutine is parked inside (blocked in the hook) and a second is sent to the other section; an arrival that the model forbids is a violation; (2) 10 (40) rounds of 12-32 goroutines re-parsing timestamps with shared zone offsets, distinct results judged; (3) 3 (20) race-detector runs of 8-16 goroutines with mixed workloads (shared codec, codec construction, registration, whole-file reads, banks closed on other goroutines): section enter/leave events sequenced inside the sections must be a behaviour of the lock model, every shared-codec round trip and timestamp must equal the sequential reference, and a race report whose access stack runs through the library is a violation; (4) gate experiments and a build-vs-Register probe have time limits (a deadlock is a violation), (5) bank-pool hammer in fast children after a very large record.",
   "Trusted: TLC, the Go race detector as sensor, harness/project.go. Interleavings are enforced at hook granularity and explored by stress, not enumerated at instruction level.",
   "DESIGN.md section 6 C12")
